@@ -119,6 +119,34 @@ def check(ctx):
     from ._typing import input_type_gate
 
     input_type_gate(ctx, repo, "F6")
+    group_suffix_test(ctx, itf, "F8")
+
+
+def group_suffix_test(ctx, itf, rid):
+    """the group a column belongs to is read from its name by the suffix `_<level>` - with the underscore: `_wthh`
+    also ends with `hh`"""
+    ctx.rule(rid, "the within-group constancy check matches a column to a grouping level by the suffix `_<level>` including the underscore (a `_wthh` column is not an `_hh` column)")
+    fd = find_function(itf, "_fail_if_group_variables_not_constant_within_groups", "anchor")
+    from staticlib.guards import scope_functions
+
+    n = 0
+    for f_ in scope_functions(itf, fd):
+        for c in ast.walk(f_):
+            if isinstance(c, ast.Call) and isinstance(c.func, ast.Attribute) and c.func.attr in ("endswith", "removesuffix") and c.args:
+                a = c.args[0]
+                n += 1
+                good = (isinstance(a, ast.JoinedStr) and a.values and isinstance(a.values[0], ast.Constant) and str(a.values[0].value).startswith("_")) or \
+                       (isinstance(a, ast.Constant) and isinstance(a.value, str) and a.value.startswith("_")) or \
+                       (isinstance(a, ast.BinOp) and isinstance(a.op, ast.Add) and isinstance(a.left, ast.Constant) and str(a.left.value).startswith("_"))
+                if isinstance(a, ast.Name):
+                    # a local holding the suffix: its definition must start with the underscore
+                    defs = [x.value for x in ast.walk(f_) if isinstance(x, ast.Assign) and len(x.targets) == 1 and isinstance(x.targets[0], ast.Name) and x.targets[0].id == a.id]
+                    good = bool(defs) and all((isinstance(dv, ast.JoinedStr) and dv.values and isinstance(dv.values[0], ast.Constant) and str(dv.values[0].value).startswith("_")) or (isinstance(dv, ast.Constant) and str(dv.value).startswith("_")) for dv in defs)
+                ctx.ob(rid, ok=good, distinct=(f_.name, c.lineno))
+                if not good:
+                    ctx.violation(rid, f"{f_.name}|{ast.unparse(c)[:50]}", itf.loc(c) + f" {f_.name}", f"`{ast.unparse(c)[:60]}` matches the grouping level without the separating underscore: every `_wthh` column is also treated as an `_hh` column and rejected when it (legitimately) differs between the part-households of one household")
+    if n == 0:
+        raise AnalysisError("the within-group check no longer reads the level from a name suffix; F8 needs a re-read")
 
 
 def must_call(ctx, repo, itf):
